@@ -1,4 +1,5 @@
 """C01 — encode then decode returns the identical payload, identity and options."""
+import time
 import os, subprocess, zlib
 import vlib, rig, credcorr
 
@@ -257,6 +258,53 @@ def run(ctx):
                 ctx.sample({"lengthgate_payload": n, "cipher": c, "enc_err": e[1], "dec_err": d[1]}, limit=12)
         p.stdin.close()
         p.wait()
+        # "when first decoded": the application's ONE munge_decode() call, also when a reply is lost on the way and the library
+        # silently repeats the request (the daemon has already recorded the credential by then)
+        import proxy
+        px = proxy.FaultProxy(os.path.join(cr.d.dir, "px01"), cr.d.sock)
+        p2 = subprocess.Popen([lm, px.listen_path], stdin=subprocess.PIPE, stdout=subprocess.PIPE, text=True)
+
+        def ask2(l):
+            p2.stdin.write(l + "\n"); p2.stdin.flush()
+            return p2.stdout.readline().split()
+        for (c, m, z, n) in ((4, 5, 0, 40), (0, 3, 3, 3000), (2, 6, 2, 70000)):
+            for plan in ([("L", 0)], [("L", 30), ("L", 0)]):
+                px.set_plan([])
+                e = ask2("E @%d %d %d %d 0 %d %d" % (n, c, m, z, ANY, ANY))
+                if e[1] != "0":
+                    continue
+                px.set_plan(plan)
+                d = ask2("D " + e[2])
+                ctx.count(("lost-reply", c, m, z, n, len(plan)))
+                dist["lost-reply"] = dist.get("lost-reply", 0) + 1
+                got = b"" if (len(d) < 14 or d[13] == "-") else bytes.fromhex(d[13])
+                if len(d) < 14 or d[1] != "0" or got != ref(n):
+                    fails.append({"why": "round trip broken: the application's first munge_decode() of a fresh credential (%d-byte payload, cipher %d "
+                                         "mac %d zip %d) returned error %s when %d reply/replies were lost on the way and libmunge repeated the "
+                                         "request" % (n, c, m, z, d[1] if len(d) > 1 else "?", len(plan)), "len": n})
+        p2.stdin.close()
+        p2.wait()
+        px.close()
+    # authorized through supplementary membership, with a group database whose lines exceed the daemon's initial buffer
+    exe_n, err_n = rig.build_daemon(ctx, name="munged-c01nss", san="address", extra_src=[os.path.join(vlib.HARNESS, "nss_shim.c")],
+                                    wraps=credcorr.NSS_WRAPS)
+    if exe_n is not None:
+        big = ["m%03d" % i for i in range(260)]
+        dbn = {"groups": [(799, ["amy"]), (800, big), (801, ["zed"]), (802, big[:200] + ["zed"])],
+               "users": [("amy", 3098), ("zed", 3100)] + [(u, 4000 + i) for i, u in enumerate(big)]}
+        dn = rig.Daemon(ctx, exe_n, tag="c01nss", nss_db=dbn)
+        if dn.start():
+            time.sleep(0.5)
+            for (uid_, g_) in ((3098, 799), (3100, 801), (3100, 802), (4007, 800)):
+                r_, _ = rig.encode(dn.sock, uid=1000, gid=1001, auth_gid=g_, data=b"for the group")
+                q_, _ = rig.decode(dn.sock, r_["data"], uid=uid_, gid=77) if r_ and r_["error_num"] == 0 else (None, None)
+                ctx.count(("nss-long-lines", uid_, g_))
+                dist["nss-long-lines"] = dist.get("nss-long-lines", 0) + 1
+                if q_ is None or q_["error_num"] != 0 or q_["data"] != b"for the group":
+                    fails.append({"why": "round trip broken: a credential restricted to GID %d, first decoded by uid %d who is listed in that group "
+                                         "(group database with lines above 1 KiB before/at that group), gives %s"
+                                         % (g_, uid_, q_ and (q_["error_num"], q_["error_str"])), "gid": g_})
+            dn.stop()
     rc, rep = cr.stop()
     if rep.strip():
         ctx.violation("sanitizer report from the daemon during C01 cases", {"report": rep[:3000]}, found_input=False)
